@@ -54,6 +54,7 @@ class SField:
         self.dget, self.dset, self.dnew, self.deflt = dget, dset, dnew, deflt
         self.newskip, self.jsontag, self.maptag = newskip, jsontag, maptag
         self.alias = alias      # rest parameter structs: shoot:"alias=..." (held in sf_jsontag in the model)
+        self.goty = None        # the type as written in the Go source when the import is renamed (tm.Duration); the model keeps ty
 
     def coq(self):
         return ("IField {| sf_name := %s; sf_ty := %s; sf_ptr := %s; sf_hasdoc := %s; sf_dget := %s; sf_dset := %s; "
@@ -86,7 +87,7 @@ class SField:
             tags.append('map:"%s"' % self.maptag)
         if self.alias:
             tags.append('shoot:"alias=%s"' % self.alias)
-        lines.append("\t%s %s%s%s" % (self.name, "*" if self.ptr else "", self.ty,
+        lines.append("\t%s %s%s%s" % (self.name, "*" if self.ptr else "", self.goty or self.ty,
                                       (" `" + " ".join(tags) + "`") if tags else ""))
         return "\n".join(lines)
 
@@ -240,13 +241,14 @@ class HFile:
 
     def coq(self):
         return ("{| h_name := %s; h_imports := %s; h_gen := %s; h_decls := %s |}"
-                % (cs(self.name), clist(cs(i) for i in self.imports), clist(cs(g) for g in self.gen),
+                % (cs(self.name), clist(cs(i[1] if isinstance(i, tuple) else i) for i in self.imports), clist(cs(g) for g in self.gen),
                    clist(d.coq() for d in self.decls)))
 
     def go(self, pkgname):
         out = ["package %s\n" % pkgname]
         if self.imports:
-            out.append("import (\n%s)\n" % "".join('\t"%s"\n' % i for i in self.imports))
+            out.append("import (\n%s)\n" % "".join(('\t%s "%s"\n' % i) if isinstance(i, tuple) else ('\t"%s"\n' % i)
+                                                    for i in self.imports))
         for g in self.gen:
             out.append(g + "\n")
         for d in self.decls:
@@ -408,7 +410,7 @@ def gen_new(rng, name="p"):
     tnames = rng.sample(TYPE_NAMES, ntypes)
     pool = list(FIELD_NAMES)
     rng.shuffle(pool)
-    use_time = rng.random() < 0.3
+    use_time = rng.random() < 0.4
     structs = []
     use_new_dir = rng.random() < 0.45
     for i, tn in enumerate(tnames):
@@ -467,7 +469,14 @@ def gen_new(rng, name="p"):
     # files
     nfiles = 1 if rng.random() < 0.55 else 2
     fnames = rng.sample(["a.go", "model.go", "types.go", "zz.go"], nfiles)
-    files = [HFile(fn, [], imports=["time"] if use_time else []) for fn in fnames]
+    renamed = use_time and rng.random() < 0.7           # import tm "time": goimports cannot guess it back
+    files = [HFile(fn, [], imports=([("tm", "time")] if renamed else ["time"]) if use_time else []) for fn in fnames]
+    tq = "tm" if renamed else "time"
+    if renamed:
+        for st in structs:
+            for it in st.items:
+                if isinstance(it, SField) and it.ty == "time.Duration":
+                    it.goty = "tm.Duration"
     for st in structs:
         rng.choice(files).decls.append(st)
     files = [f for f in files if f.decls]
@@ -475,7 +484,7 @@ def gen_new(rng, name="p"):
         if rng.random() < 0.3:
             f.decls.insert(rng.randint(0, len(f.decls)), Other("helper" + f.name[:1], "func helper%s() int { return 1 }\n" % f.name[:1]))
         if use_time and not any(isinstance(it, SField) and it.ty == "time.Duration" for d in f.decls if isinstance(d, Struct) for it in d.items):
-            f.decls.append(Other("tick" + f.name[:1], "var tick%s time.Duration\n" % f.name[:1]))
+            f.decls.append(Other("tick" + f.name[:1], "var tick%s %s.Duration\n" % (f.name[:1], tq)))
     return Pkg("new", name, files, flags)
 
 
@@ -583,15 +592,23 @@ def gen_map(rng, name="src"):
         funcs = rng.sample([("IntToStr", "int64", "string"), ("StrToInt", "string", "int64"),
                             ("BoolToInt", "bool", "int"), ("IntToBool", "int", "bool")], rng.randint(1, 3))
         srcf.decls.append(Funcs("Mapper", funcs))
-    # an embedded pointer struct on the source side (pointer paths)
+    # embedded pointer structs on both sides (pointer paths: nil checks, allocation lists sorted after a map iteration)
     emb = None
-    if rng.random() < 0.6:
+    if rng.random() < 0.7:
         emb = Struct("Inner", [SField("Deep", "string"), SField("Zip", "int")])
         srcf.decls.append(emb)
+    emb2 = None
+    if rng.random() < 0.6:
+        emb2 = Struct("Extra", [SField("Tail", "string"), SField("Wing", "int")])
+        srcf.decls.append(emb2)
     demb = None
-    if rng.random() < 0.5:
+    if rng.random() < 0.6:
         demb = Struct("Dinner", [SField("Deep", "string"), SField("Far", "int64")])
         destf.decls.append(demb)
+    demb2 = None
+    if rng.random() < 0.5:
+        demb2 = Struct("Dextra", [SField("Pole", "string"), SField("Wing", "int")])
+        destf.decls.append(demb2)
     shootnew_dest, shootnew_src = [], []
     for tn in tnames:
         k = rng.randint(2, 5)
@@ -601,10 +618,18 @@ def gen_map(rng, name="src"):
         snew = (not dnew) and rng.random() < 0.2
         if use_mapper and rng.random() < 0.7 and not snew:
             sitems.append(Embed("Mapper"))
-        if emb and rng.random() < 0.6 and not snew:
-            sitems.append(Embed("Inner", ptr=rng.random() < 0.7))
-        if demb and rng.random() < 0.6 and not dnew:
-            ditems.append(Embed("Dinner", ptr=rng.random() < 0.7))
+        if emb and rng.random() < 0.7 and not snew:
+            sitems.append(Embed("Inner", ptr=rng.random() < 0.8))
+        if emb2 and rng.random() < 0.7 and not snew:
+            sitems.append(Embed("Extra", ptr=rng.random() < 0.8))
+            if not dnew and not demb2 and rng.random() < 0.8:
+                ditems.append(SField("Tail", "string"))
+        if demb and rng.random() < 0.7 and not dnew:
+            ditems.append(Embed("Dinner", ptr=rng.random() < 0.8))
+        if demb2 and rng.random() < 0.7 and not dnew:
+            ditems.append(Embed("Dextra", ptr=rng.random() < 0.8))
+            if not snew and rng.random() < 0.8:
+                sitems.append(SField("Pole", "string"))
         for n in names:
             sty = rng.choice(MAP_TYPES)
             r = rng.random()
